@@ -561,3 +561,48 @@ func main(a [%d]uint64, b uint%d) (uint64, uint%d, uint64) {
 	return &prog{Src: src, GIn: []string{inputFor(r, ta)}, EIn: []string{inputFor(r, tb)}, Class: "sweep",
 		Feat: map[string]bool{"wide_input": true, "boundary_sweep": true}}
 }
+
+// bigProgram: an otherwise small program with ONE instruction whose circuit
+// has more than 65536 wires (division / modulo at 96..130 bits, multiplication
+// at 130..200 bits), so that circuit-internal temporary wire indexes exceed
+// 65535 while every persistent wire id stays small.
+func bigProgram(r *hxlib.Rng, k int) *prog {
+	var op string
+	var w int
+	switch k % 3 {
+	case 0:
+		op, w = "/", 100+r.Intn(31)
+		if k == 0 {
+			w = 128
+		}
+	case 1:
+		op, w = "%", 96+r.Intn(35)
+	default:
+		op, w = "*", 150+r.Intn(60)
+	}
+	t := ty{k: kUint, bits: w}
+	hexIn := func() string {
+		s := hexDigits(r, (w+3)/4)
+		// keep within w bits: clear the surplus top bits of the first digit
+		if w%4 != 0 {
+			d := "0123456789abcdef"
+			v := strings.IndexByte(d, s[0]) & ((1 << uint(w%4)) - 1)
+			s = string(d[v]) + s[1:]
+		}
+		return "0x" + s
+	}
+	bIn := hexIn()
+	if r.Intn(3) == 0 {
+		bIn = fmt.Sprintf("0x%x", 1+r.Intn(1000)) // small divisor: large quotient
+	}
+	src := fmt.Sprintf(`package main
+func main(a, b %s) (%s, %s, %s) {
+	x := a %s b
+	y := x >> 3
+	z := y ^ b
+	return x, y, z
+}
+`, t, t, t, t, op)
+	return &prog{Src: src, GIn: []string{hexIn()}, EIn: []string{bIn}, Class: "big",
+		Feat: map[string]bool{"big_instruction": true}}
+}
